@@ -15,7 +15,8 @@ Plain == {[BaseState EXCEPT !.attesters = {A(k) : k \in S}, !.threshold = t] :
 Spelled == {[BaseState EXCEPT !.attesters = {[key |-> "k1", sp |-> "0x"], [key |-> "k2", sp |-> "UP"]}, !.threshold = 2],
             [BaseState EXCEPT !.attesters = {A("k1"), [key |-> "k1", sp |-> "0X"], A("k2")}, !.threshold = 2],
             [BaseState EXCEPT !.attesters = {A("k1"), [key |-> "k1", sp |-> "0x"]}, !.threshold = 2],
-            [BaseState EXCEPT !.attesters = {A("junk1"), A("k2")}, !.threshold = 1]}
+            [BaseState EXCEPT !.attesters = {A("junk1"), A("k2")}, !.threshold = 1],
+            [BaseState EXCEPT !.attesters = {[key |-> "k1", sp |-> "odd"], [key |-> "k3", sp |-> "0xodd"]}, !.threshold = 2]}
 MCInit == Plain \cup Spelled
 
 Base(q)  == [i \in 1..Len(q) |-> Sg(q[i])]
